@@ -82,7 +82,13 @@ func DrawCfg(t *rapid.T, seeded bool) Cfg {
 }
 
 // Repr renders a value canonically and structurally (public accessors only).
-func Repr(v *ds.VMValue) string {
+func Repr(v *ds.VMValue) string { return ReprN(v, ReprBudget) }
+
+// ReprBudget bounds Repr and AttrsRepr: a DAG such as x=[x,x] built k times is cheap for the VM but has 2^k
+// leaves; equal values are cut at the same place, so the bounded text still compares.
+const ReprBudget = 250000
+
+func reprPlain(v *ds.VMValue) string {
 	var sb strings.Builder
 	repr(&sb, v, 0, map[any]bool{})
 	return sb.String()
@@ -201,7 +207,9 @@ func mapRepr(m *ds.ValueMap, depth int, seen map[any]bool) string {
 }
 
 // AttrsRepr renders the top-level variables of a VM canonically.
-func AttrsRepr(vm *ds.Context) string {
+func AttrsRepr(vm *ds.Context) string { return AttrsReprN(vm, ReprBudget) }
+
+func attrsPlain(vm *ds.Context) string {
 	if vm.Attrs == nil {
 		return "{}"
 	}
